@@ -423,7 +423,9 @@ def run2(case, storage_content, now2, watch):
                 await asyncio.sleep(0.01)
                 await harness.quiesce(loop)
                 after = state_of(real[i])
-                out['timers'][i] = (before, after)
+                if circuit.error is None:
+                    out['timers'][i] = (before, after)
+                # else: a timed event of some block failed meanwhile and ended the simulation
         await sim.stop()
 
     harness.run_case(scenario, wall_start=EPOCH + _dt.timedelta(microseconds=round(now2 * 1e6)),
